@@ -102,6 +102,12 @@ Definition train_hook (t : train_pol) (h : hook) : hook :=
   | TrainPrintFirst => HPrintThen h
   end.
 
+(** the alternative bookkeepings that are refuted in C09_Props.v *)
+Definition restore_on_drop : policy := {| ppol := PipeRestore; tpol := TrainChain |}.   (* seeded C09-2 on the repaired tree *)
+Definition once_pinned : policy := {| ppol := PipeOnce; tpol := TrainPinned |}.        (* seeded C09-4 as it was seeded *)
+Definition once_chain : policy := {| ppol := PipeOnce; tpol := TrainChain |}.          (* seeded C09-4 on the repaired tree *)
+Definition print_first : policy := {| ppol := PipeAlways; tpol := TrainPrintFirst |}.  (* println!, then the previous hook *)
+
 (** bookkeeping of one API call (a panic does not change it) *)
 Definition hstep (pol : policy) (s : hstate) (o : op) : hstate :=
   match o with
@@ -137,6 +143,22 @@ Definition hstep (pol : policy) (s : hstate) (o : op) : hstate :=
   end.
 
 Definition hexec (pol : policy) (s : hstate) (ops : list op) : hstate := fold_left (hstep pol) ops s.
+
+(** [DropPipe i] is nested: no pipe created after pipe i is still alive with worker threads; a history is well
+    nested when every drop is (pipes are dropped in reverse order of creation) *)
+Definition live_threaded (p : pipe) : bool := p_live p && negb (Nat.eqb (p_threads p) 0).
+
+Definition nested_drop (s : hstate) (o : op) : bool :=
+  match o with
+  | DropPipe i => forallb (fun p => negb (live_threaded p)) (skipn (S i) (h_pipes s))
+  | _ => true
+  end.
+
+Fixpoint well_nested (pol : policy) (s : hstate) (ops : list op) : bool :=
+  match ops with
+  | [] => true
+  | o :: r => nested_drop s o && well_nested pol (hstep pol s o) r
+  end.
 
 (** which thread panics *)
 Inductive target := TWorker (w : nat) | TConsumer | TOther.
@@ -204,10 +226,10 @@ Definition protected_panic (s : hstate) (o : op) : bool :=
   end.
 
 (** index of the first protected panic; the pipe fields it reads evolve identically under every policy *)
-Fixpoint first_protected (s : hstate) (ops : list op) (k : nat) : option nat :=
+Fixpoint first_protected (s : hstate) (ops : list op) : option nat :=
   match ops with
   | [] => None
-  | o :: rest => if protected_panic s o then Some k else first_protected (hstep repaired s o) rest (S k)
+  | o :: rest => if protected_panic s o then Some 0 else option_map S (first_protected (hstep repaired s o) rest)
   end.
 
 Definition status_code (st : status) : Z :=
@@ -222,7 +244,7 @@ Definition hook_ok (ops : list op) (code : Z) (counts : list nat) : bool :=
   known_status code
   && (length counts <=? length ops)%nat
   && (if Z.eqb code 0 then Nat.eqb (length counts) (length ops) else negb (Nat.eqb (length counts) 0))
-  && match first_protected hinit ops 0 with
+  && match first_protected hinit ops with
      | None => true
      | Some k => (length counts <=? k)%nat || (Nat.eqb (length counts) (S k) && Z.eqb code 1)
      end.
